@@ -52,7 +52,7 @@ fn vp_native_framing_decision_matrix_body() {
                     wire.extend_from_slice(body);
                     let req = PreparedRequest::new(method.clone(), "http://a.test/");
                     let res = parse_response(BaseStream::mock(wire.clone()), &req, req.url()).and_then(|r| r.bytes());
-                    cases += 1;
+                    cases += 1; crate::verif_native_watchdog::progress();
                     let no_body = method == Method::HEAD || (100..200).contains(&status) || status == 204 || status == 304;
                     let ctx = format!("method {} status {} CL {:?} TE {:?}", method, status, cls, te);
                     // a control byte in a field value makes the head itself invalid: refusing the whole response is fine for any status
@@ -119,7 +119,7 @@ fn vp_native_frame_bounds_coded_bodies_body() {
                 let got = outcome(follow);
                 assert_eq!(got.as_ref().map(|b| b.len()), alone.as_ref().map(|b| b.len()), "bytes after a Content-Length frame of {} octets ({} {}, level {}) changed the outcome", cut, header, if gzip { "gzip" } else { "deflate" }, level);
                 assert_eq!(got, alone, "bytes after a Content-Length frame of {} octets changed the body", cut);
-                cases += 1;
+                cases += 1; crate::verif_native_watchdog::progress();
             }
             if cut == stream.len() { assert_eq!(alone.as_ref().ok(), Some(&payload), "the whole coded stream inside the frame decodes to the payload"); }
         }
@@ -147,7 +147,7 @@ fn vp_native_head_hostile_inputs_no_panic_body() {
                 let shown = w.clone();
                 let r = std::panic::catch_unwind(std::panic::AssertUnwindSafe(|| { let _ = parse_response(BaseStream::mock(w), &req, req.url()).and_then(|r| r.bytes()); }));
                 assert!(r.is_ok(), "the parser panicked on the response head {:?}", String::from_utf8_lossy(&shown));
-                cases += 1;
+                cases += 1; crate::verif_native_watchdog::progress();
             }
         }
         let mut k = 0;
@@ -174,7 +174,7 @@ fn vp_native_head_roundtrip_small_body() {
                 wire.extend_from_slice(b"Content-Length: 0\r\n\r\n");
                 let req = PreparedRequest::new(Method::GET, "http://a.test/");
                 let resp = parse_response(BaseStream::mock(wire.clone()), &req, req.url()).unwrap();
-                cases += 1;
+                cases += 1; crate::verif_native_watchdog::progress();
                 assert_eq!(resp.status().as_u16(), status);
                 for name in names {
                     let want: Vec<Vec<u8>> = if name.eq_ignore_ascii_case("transfer-encoding") { vec![] } else {
@@ -196,7 +196,7 @@ fn vp_native_head_roundtrip_small_body() {
         let req = PreparedRequest::new(Method::GET, "http://a.test/");
         let resp = parse_response(BaseStream::mock(wire), &req, req.url()).unwrap_or_else(|e| panic!("status {} {:?} {:?}: {}", status, version, reason, e));
         assert_eq!(resp.status().as_u16(), status); assert_eq!(resp.headers().get("x-one").map(|v| v.as_bytes()), Some(&b"1"[..]));
-        cases += 1;
+        cases += 1; crate::verif_native_watchdog::progress();
     } }
     // header blocks larger than the 8 KiB read buffer: up to the default limit of 100 fields, long values, obs-text, duplicates in wire order
     for nfields in [1usize, 37, 99, 100] { for vlen in [0usize, 1, 200, 3000] {
@@ -213,7 +213,7 @@ fn vp_native_head_roundtrip_small_body() {
         wire.extend_from_slice(b"Content-Length: 0\r\n\r\n");
         let req = PreparedRequest::new(Method::GET, "http://a.test/");
         let resp = parse_response(BaseStream::mock(wire.clone()), &req, req.url()).unwrap_or_else(|e| panic!("{} fields with {}-byte values ({} byte head): {}", nfields, vlen, wire.len(), e));
-        cases += 1;
+        cases += 1; crate::verif_native_watchdog::progress();
         assert_eq!(resp.headers().len(), nfields, "field count");
         let cookies: Vec<Vec<u8>> = fields.iter().filter(|(n, _)| n == "Set-Cookie").map(|(_, v)| v.clone()).collect();
         let got: Vec<Vec<u8>> = resp.headers().get_all("set-cookie").iter().map(|v| v.as_bytes().to_vec()).collect();
@@ -240,7 +240,7 @@ fn vp_native_head_field_limit_body() {
         let wire = head_with(count, distinct);
         let mut reader = std::io::BufReader::with_capacity(7, &wire[..]);
         let got = crate::parsing::response::parse_response_head(&mut reader, max);
-        cases += 1;
+        cases += 1; crate::verif_native_watchdog::progress();
         assert!(got.is_err(), "{} field lines ({} distinct names) accepted with max_headers = {}", count, distinct.min(count), max);
     } } }
     println!("VP-NATIVE head_field_limit cases={}", cases);
@@ -255,7 +255,7 @@ fn vp_native_head_up_to_the_limit_body() {
         let wire = head_with(count, distinct);
         let mut reader = std::io::BufReader::with_capacity(7, &wire[..]);
         let got = crate::parsing::response::parse_response_head(&mut reader, max);
-        cases += 1;
+        cases += 1; crate::verif_native_watchdog::progress();
         match got { Ok((_, h)) => assert_eq!(h.len(), count), Err(e) => panic!("{} field lines refused with max_headers = {}: {}", count, max, e) }
     } } }
     println!("VP-NATIVE head_up_to_the_limit cases={}", cases);
@@ -290,9 +290,9 @@ fn vp_native_response_body_end_to_end_body() {
         for (name, wire) in &wires {
             let req = PreparedRequest::new(Method::GET, "http://a.test/");
             let open = || parse_response(BaseStream::mock(wire.clone()), &req, req.url()).unwrap();
-            let got = open().bytes().unwrap_or_else(|e| panic!("bytes() of a {}-byte {} body: {}", n, name, e)); cases += 1;
+            let got = open().bytes().unwrap_or_else(|e| panic!("bytes() of a {}-byte {} body: {}", n, name, e)); cases += 1; crate::verif_native_watchdog::progress();
             assert!(got == payload, "bytes(): {} of {} bytes delivered, {} body", got.len(), n, name);
-            let mut sink = Vec::new(); let copied = open().write_to(&mut sink).unwrap(); cases += 1;
+            let mut sink = Vec::new(); let copied = open().write_to(&mut sink).unwrap(); cases += 1; crate::verif_native_watchdog::progress();
             assert!(sink == payload && copied == n as u64, "write_to(): {} of {} bytes, {} body", sink.len(), n, name);
             // a writer that accepts only a few bytes per call (a pipe, a socket, a rate-limited sink): nothing is lost
             for accept in [1usize, 7, 1000] {
@@ -300,18 +300,18 @@ fn vp_native_response_body_end_to_end_body() {
                 struct Short { out: Vec<u8>, accept: usize }
                 impl std::io::Write for Short { fn write(&mut self, b: &[u8]) -> std::io::Result<usize> { let k = b.len().min(self.accept); self.out.extend_from_slice(&b[..k]); Ok(k) } fn flush(&mut self) -> std::io::Result<()> { Ok(()) } }
                 let mut w = Short { out: Vec::new(), accept };
-                let copied = open().write_to(&mut w).unwrap_or_else(|e| panic!("write_to() into a writer taking {} bytes per call, {}-byte {} body: {}", accept, n, name, e)); cases += 1;
+                let copied = open().write_to(&mut w).unwrap_or_else(|e| panic!("write_to() into a writer taking {} bytes per call, {}-byte {} body: {}", accept, n, name, e)); cases += 1; crate::verif_native_watchdog::progress();
                 assert!(w.out == payload && copied == n as u64, "write_to() into a writer taking {} bytes per call: {} of {} bytes arrived (reported {}), {} body", accept, w.out.len(), n, copied, name);
             }
             // the text helpers read the same payload: lossy decoding of exactly these bytes (the payload is not valid UTF-8), and of a
             // valid UTF-8 rendering of it
-            let t = open().text_utf8().unwrap_or_else(|e| panic!("text_utf8() of a {}-byte {} body: {}", n, name, e)); cases += 1;
+            let t = open().text_utf8().unwrap_or_else(|e| panic!("text_utf8() of a {}-byte {} body: {}", n, name, e)); cases += 1; crate::verif_native_watchdog::progress();
             assert!(t == String::from_utf8_lossy(&payload), "text_utf8(): {} chars from a {}-byte {} body, expected the lossy decoding of the payload ({} chars)", t.chars().count(), n, name, String::from_utf8_lossy(&payload).chars().count());
-            let mut v = Vec::new(); let n1 = open().read_to_end(&mut v).unwrap_or_else(|e| panic!("read_to_end() of a {}-byte {} body: {}", n, name, e)); cases += 1;
+            let mut v = Vec::new(); let n1 = open().read_to_end(&mut v).unwrap_or_else(|e| panic!("read_to_end() of a {}-byte {} body: {}", n, name, e)); cases += 1; crate::verif_native_watchdog::progress();
             assert!(v == payload && n1 == n, "read_to_end(): {} of {} bytes, {} body", v.len(), n, name);
-            let mut v = Vec::new(); open().split().2.read_to_end(&mut v).unwrap(); cases += 1;
+            let mut v = Vec::new(); open().split().2.read_to_end(&mut v).unwrap(); cases += 1; crate::verif_native_watchdog::progress();
             assert!(v == payload, "ResponseReader read_to_end(): {} of {} bytes, {} body", v.len(), n, name);
-            let (sp, ss) = open().split().2.text_utf8().map(|t| (t.len(), t == String::from_utf8_lossy(&payload))).unwrap_or((0, false)); cases += 1;
+            let (sp, ss) = open().split().2.text_utf8().map(|t| (t.len(), t == String::from_utf8_lossy(&payload))).unwrap_or((0, false)); cases += 1; crate::verif_native_watchdog::progress();
             assert!(ss, "ResponseReader::text_utf8() after split(): {} bytes of text from a {}-byte {} body", sp, n, name);
             for sched in schedules {
                 let mut r = open(); let mut out = Vec::new(); let mut i = 0usize;
@@ -326,7 +326,7 @@ fn vp_native_response_body_end_to_end_body() {
                 }
                 // the end is sticky
                 let mut b = [0u8; 8]; assert_eq!(r.read(&mut b).unwrap(), 0);
-                cases += 1;
+                cases += 1; crate::verif_native_watchdog::progress();
                 assert!(out == payload, "read schedule {:?}: {} of {} bytes delivered (first difference at {:?}), {} body", sched, out.len(), n, out.iter().zip(payload.iter()).position(|(a, b)| a != b), name);
             }
         }
@@ -354,7 +354,7 @@ fn vp_native_response_truncation_end_to_end_body() {
             let w = wire[..cut].to_vec();
             let req = PreparedRequest::new(Method::GET, "http://a.test/");
             let open = || parse_response(BaseStream::mock(w.clone()), &req, req.url());
-            cases += 1;
+            cases += 1; crate::verif_native_watchdog::progress();
             if cut < head_end { assert!(open().is_err(), "{} response cut at {} (inside the head) accepted", name, cut); continue; }
             let complete = cut >= *frame_end;
             let b = open().unwrap().bytes();
@@ -422,7 +422,7 @@ fn vp_native_head_any_segmentation_body() {
             let mut r = std::io::BufReader::with_capacity(cap, Paused { data: head, pos: 0, seg });
             let (s, h) = crate::parsing::response::parse_response_head(&mut r, 100)
                 .unwrap_or_else(|e| panic!("head {:?} with {}-byte segments and a {}-byte buffer: {} (nothing follows the blank line)", String::from_utf8_lossy(head), seg, cap, e));
-            cases += 1;
+            cases += 1; crate::verif_native_watchdog::progress();
             let fields: Vec<(String, Vec<u8>)> = h.iter().map(|(k, v)| (k.as_str().to_string(), v.as_bytes().to_vec())).collect();
             assert!(s == s0 && fields == fields0, "head {:?} parsed differently with {}-byte segments and a {}-byte buffer", String::from_utf8_lossy(head), seg, cap);
         } }
@@ -460,7 +460,7 @@ fn vp_native_declared_sizes_not_allocated_body() {
         });
         WATCH.with(|w| w.set(false));
         let peak = PEAK.load(Ordering::SeqCst);
-        cases += 1;
+        cases += 1; crate::verif_native_watchdog::progress();
         let ctx = format!("{} framing declaring {} bytes (2 delivered), read with {}", framing, d, accessor);
         match outcome { Err(_) => panic!("panic: {}", ctx), Ok(Ok(n)) => panic!("{} bytes reported as a complete body: {}", n, ctx), Ok(Err(_)) => {} }
         assert!(peak <= 512 * 1024, "a single allocation of {} bytes was requested: {}", peak, ctx);
@@ -568,7 +568,7 @@ fn vp_native_generated_responses_body_body() {
         let g = gen_response(&mut r);
         let req = PreparedRequest::new(Method::GET, "http://a.test/");
         let got = parse_response(BaseStream::mock(g.wire.clone()), &req, req.url()).and_then(|x| x.bytes());
-        cases += 1;
+        cases += 1; crate::verif_native_watchdog::progress();
         match got { Ok(b) => assert!(b == g.body, "case {} of seed {:x} ({}): bytes() returned {} bytes, the payload has {}", i, seed, g.what, b.len(), g.body.len()),
                     Err(e) => panic!("case {} of seed {:x} ({}): {}; head {:?}", i, seed, g.what, e, String::from_utf8_lossy(&g.wire[..g.wire.len().min(300)])) }
         let mut resp = parse_response(BaseStream::mock(g.wire.clone()), &req, req.url()).unwrap();
@@ -589,7 +589,7 @@ fn vp_native_generated_responses_head_body() {
         let g = gen_response(&mut r);
         let req = PreparedRequest::new(Method::GET, "http://a.test/");
         let resp = match parse_response(BaseStream::mock(g.wire.clone()), &req, req.url()) { Ok(x) => x, Err(e) => panic!("case {} of seed {:x} ({}): {}", i, seed, g.what, e) };
-        cases += 1;
+        cases += 1; crate::verif_native_watchdog::progress();
         assert_eq!(resp.status().as_u16(), g.status, "case {} of seed {:x}", i, seed);
         let mut names: Vec<&str> = g.fields.iter().map(|(n, _)| n.as_str()).collect(); names.sort(); names.dedup();
         for name in names {
@@ -613,7 +613,7 @@ fn vp_native_generated_responses_decoded_body() {
         let g = gen_response_coded(&mut r, true);
         let req = PreparedRequest::new(Method::GET, "http://a.test/");
         let got = parse_response(BaseStream::mock(g.wire.clone()), &req, req.url()).and_then(|x| x.bytes());
-        cases += 1;
+        cases += 1; crate::verif_native_watchdog::progress();
         match got { Ok(b) => assert!(b == g.body, "case {} of seed {:x} ({}): {} bytes read, the payload has {}; head {:?}", i, seed, g.what, b.len(), g.body.len(), String::from_utf8_lossy(&g.wire[..g.wire.len().min(300)])),
                     Err(e) => panic!("case {} of seed {:x} ({}): {}; head {:?}", i, seed, g.what, e, String::from_utf8_lossy(&g.wire[..g.wire.len().min(300)])) }
         // the same body through caller reads of every size, empty buffers included: an empty read says nothing about the end of the body
